@@ -99,13 +99,16 @@ pub fn mix(seed: u64, tag: &str) -> u64 {
     z ^ (z >> 31)
 }
 
+/// Shrink budget per failing run (slow out-of-process targets lower it).
+pub static MAX_SHRINK: std::sync::atomic::AtomicU32 = std::sync::atomic::AtomicU32::new(3000);
+
 pub fn runner(seed: u64, tag: &str, cases: u32) -> TestRunner {
     let s = mix(seed, tag);
     let mut bytes = [0u8; 32];
     for i in 0..4 {
         bytes[i * 8..i * 8 + 8].copy_from_slice(&mix(s, &format!("k{i}")).to_le_bytes());
     }
-    let cfg = Config { cases, failure_persistence: None, max_shrink_iters: 3000, rng_seed: RngSeed::Fixed(s), ..Config::default() };
+    let cfg = Config { cases, failure_persistence: None, max_shrink_iters: MAX_SHRINK.load(std::sync::atomic::Ordering::Relaxed), rng_seed: RngSeed::Fixed(s), ..Config::default() };
     TestRunner::new_with_rng(cfg, TestRng::from_seed(RngAlgorithm::ChaCha, &bytes))
 }
 
